@@ -54,5 +54,20 @@ P3 == {PCase("P3", <<F("a", Arr(DeclBase(ns)), 0, 1)>>, <<SeqV(SendSeq(DeclBase(
 \* P4: the deepest class declared itself - its own flat layout: grandparent's, parent's, own fields
 P4 == {PCase("P4", <<F("o", PL(ns), 0, 1)>>, <<v>>, <<PL(ns)>>, <<v>>, FALSE) : ns \in {"tns", "urn:other"}, v \in LeafVs}
       \cup {PCase("P4", <<F("a", Arr(PL("tns")), 0, 1)>>, <<SeqV(<<v, v>>)>>, <<Arr(PL("tns"))>>, <<SeqV(<<v>>)>>, FALSE) : v \in LeafVs}
-PolyCases == P1 \cup P2 \cup P3 \cup P4
+\* P5: two subclasses of one base that share their TYPE NAME and live in different namespaces (versions of a schema): what a
+\* type marker denotes is the (namespace, name) pair its prefix resolves to IN THE DOCUMENT AT THAT ELEMENT - the driver spells
+\* every marker with the same prefix literal, bound locally, so equal marker texts denote different classes within one request
+\* and across the requests of one server.  (XML family only: dict documents name classes without a namespace.)
+PB5 == Obj("Base5", "tns", <<F("b1", Prim("Integer"), 0, 1)>>)
+V1 == WithTN(Sub("Ver1", "urn:v1", <<F("r", Prim("Decimal"), 0, 1)>>, PB5), "Ver")
+V2 == WithTN(Sub("Ver2", "urn:v2", <<F("r", Prim("Decimal"), 0, 1), F("u", Prim("Unicode"), 0, 1), F("d", Prim("Date"), 0, 1)>>, PB5), "Ver")
+Decl5 == [PB5 EXCEPT !.subs = <<V1, V2>>]
+Ver1V == ObjV("Ver1", <<Leaf("5"), Leaf("1.5")>>)
+Ver2V == ObjV("Ver2", <<Leaf("5"), Leaf("-100.25"), Leaf("hello"), Leaf("2020-02-29")>>)
+Base5V == ObjV("Base5", <<Leaf("5")>>)
+P5 == {PCase("P5", <<F("a", Decl5, 0, 1), F("b", Decl5, 0, 1), F("c", V1, 0, 1), F("d", V2, 0, 1)>>, <<va, vb, Nil, Nil>>, <<Prim("Integer")>>, <<Leaf("5")>>, TRUE) :
+         va \in {Ver1V, Ver2V, Base5V}, vb \in {Ver1V, Ver2V}}
+      \cup {PCase("P5", <<F("xs", Arr(Decl5), 0, 1), F("c", V1, 0, 1), F("d", V2, 0, 1)>>, <<SeqV(m), Nil, Nil>>, <<Prim("Integer")>>, <<Leaf("5")>>, TRUE) :
+               m \in {<<Ver1V, Ver2V, Ver1V>>, <<Ver2V, Base5V, Ver1V>>}}
+PolyCases == P1 \cup P2 \cup P3 \cup P4 \cup P5
 =============================================================================
